@@ -8,14 +8,15 @@ BRIEF = {1: "two realistic slips per property (`_1`, `_2`)",
          4: "plausible pull requests at code sites no earlier round touched (`_7`, `_8`)",
          5: "break the property through a dependency, anchors untouched (`_9`, `_10`)",
          6: "two categories of a taxonomy of real-world numerical-library bugs (`_11`, `_12`)",
-         7: "free choice: the most realistic change not yet used, one per property (`_13`)"}
+         7: "free choice: the most realistic change not yet used, one per property (`_13`)",
+         8: "ten properties, 12-minute budget: a mechanism and code site not in the list of thirteen used (`_14`)"}
 rounds = {}
 for d in glob.glob(os.path.join(ROOT, "seeded", "C*_*")):
     mp = os.path.join(d, "meta.json")
     if not os.path.exists(mp):
         continue
     k = int(os.path.basename(d).split("_")[1])
-    r = (k + 1) // 2
+    r = (k + 1) // 2 if k <= 12 else k - 6  # rounds 7, 8: one change per property (`_13`, `_14`)
     m = json.load(open(mp))
     h = m.get("history", [])
     first = h[0]["detected"] if h else m["detected"]
